@@ -91,6 +91,8 @@ def run_scenario(sc: dict[str, Any]) -> dict[str, Any]:
             elif ev == 'q.proc.begin' and e.get('res') == 'things':
                 rv = int(e['rv'])
                 if rv in edit_rvs: out.append({'ev': 'change', 't': e['t']})
+                elif not sc.get('change_handlers', True) and rv != del_rv and e.get('type') not in (None, 'ADDED', 'DELETED'):
+                    out.append({'ev': 'selfchange', 't': e['t']})          # an event that is not a user's change (the echo of an own patch)
                 if del_rv is not None and rv == del_rv: out.append({'ev': 'stop', 't': e['t']})
             elif ev == 'quiet':
                 out.append({'ev': 'quiet', 't': e['t']})
@@ -125,7 +127,8 @@ def judge(traces: list[dict[str, Any]], rep: Any, perm_stops: bool = True) -> di
         durs = sorted({e['dur'] for t in traces for e in t['events'] if e['ev'] == 'start'} | {0})
         path = os.path.join(scratch, 'traces.json')
         with open(path, 'w') as f:
-            json.dump([{'id': t['id'], 'conf': t['conf'], 't0': t['t0'], 'events': t['events']} for t in traces], f)
+            json.dump([{'id': t['id'], 'conf': t['conf'], 't0': t['t0'], 'events': t['events'],
+                        'nochange': not t['scenario'].get('change_handlers', True)} for t in traces], f)
         cfg = ('SPECIFICATION TSpec\nCONSTANTS\n  ConfSet = {}\n  Durs = {%s}\n  Delays = {%s}\n  Horizon = 100000\n  MaxChanges = 1000\n'
                '  MaxFails = 1000\n  PermStops = %s\nCONSTRAINT Book\nPOSTCONDITION Verdicts\nCHECK_DEADLOCK FALSE\n'
                % (', '.join(map(str, durs)), ', '.join(map(str, delays)), 'TRUE' if perm_stops else 'FALSE'))
@@ -145,5 +148,5 @@ def judge(traces: list[dict[str, Any]], rep: Any, perm_stops: bool = True) -> di
         if strict == n: v = 'accepted'
         elif loose == n: v = f'invariant {inv} violated'
         else: v = f'rejected at event {loose + 1} of {n}: {t["events"][loose] if loose < len(t["events"]) else None}'
-        res[t['id']] = {'verdict': v, 'loose': loose, 'inv': inv}
+        res[t['id']] = {'verdict': v, 'loose': loose, 'inv': inv, 'family': m.group(7)}
     return res
